@@ -982,6 +982,7 @@ fn simulate(
 
 thread_local! {
     static TID: Cell<Option<usize>> = const { Cell::new(None) };
+    static EPOCH: Cell<usize> = const { Cell::new(0) };
     static PASS_FIRST: Cell<bool> = const { Cell::new(false) };
     static CALL: Cell<usize> = const { Cell::new(0) };
     static STEP: Cell<usize> = const { Cell::new(0) };
@@ -1002,8 +1003,27 @@ struct SchedState {
 struct Sched {
     m: Mutex<SchedState>,
     cv: Condvar,
+    /// threads of an abandoned earlier case may still be running: they carry another epoch and
+    /// pass every yield point without taking part in this case's schedule
+    epoch: usize,
 }
-const STEP_LIMIT: Duration = Duration::from_secs(60);
+/// Watchdog limit of one grant / one wait for a handle.  60 s covers a loaded machine; once
+/// real hangs have been observed in this process the limit shrinks, so that an implementation
+/// that hangs in EVERY case still lets the run finish (each case is reported as ["hang"]).
+static HANGS: AtomicUsize = AtomicUsize::new(0);
+static EPOCHS: AtomicUsize = AtomicUsize::new(1);
+fn step_limit() -> Duration {
+    match HANGS.load(Ordering::SeqCst) {
+        0..=2 => Duration::from_secs(60),
+        3..=9 => Duration::from_secs(10),
+        _ => Duration::from_secs(2),
+    }
+}
+/// lock that survives poisoning (a panicking implementation call never holds these locks, but
+/// the harness must not die with it)
+fn lk<T>(m: &Mutex<T>) -> std::sync::MutexGuard<'_, T> {
+    m.lock().unwrap_or_else(std::sync::PoisonError::into_inner)
+}
 
 impl Sched {
     fn new(n: usize) -> Arc<Self> {
@@ -1015,11 +1035,12 @@ impl Sched {
                 abort: false,
             }),
             cv: Condvar::new(),
+            epoch: EPOCHS.fetch_add(1, Ordering::SeqCst),
         })
     }
     /// park thread t at position (call, step) until it is granted a turn
     fn park(&self, t: usize, call: usize, step: usize) {
-        let mut g = self.m.lock().unwrap();
+        let mut g = lk(&self.m);
         if g.abort {
             return;
         }
@@ -1027,7 +1048,7 @@ impl Sched {
         g.pos[t] = (call, step);
         self.cv.notify_all();
         while g.turn != Some(t) && !g.abort {
-            g = self.cv.wait(g).unwrap();
+            g = self.cv.wait(g).unwrap_or_else(std::sync::PoisonError::into_inner);
         }
         if g.turn == Some(t) {
             g.turn = None;
@@ -1036,6 +1057,9 @@ impl Sched {
     /// hook body
     fn at_yield(&self) {
         let Some(t) = TID.with(Cell::get) else { return };
+        if EPOCH.with(Cell::get) != self.epoch {
+            return;
+        }
         let step = STEP.with(Cell::get);
         STEP.with(|s| s.set(step + 1));
         if PASS_FIRST.with(Cell::get) {
@@ -1045,32 +1069,32 @@ impl Sched {
         self.park(t, CALL.with(Cell::get), step);
     }
     fn finish(&self, t: usize) {
-        let mut g = self.m.lock().unwrap();
+        let mut g = lk(&self.m);
         g.st[t] = St::Done;
         self.cv.notify_all();
     }
     fn give_up(&self) {
-        let mut g = self.m.lock().unwrap();
+        let mut g = lk(&self.m);
         g.abort = true;
         self.cv.notify_all();
     }
     fn quiesce(&self) -> bool {
-        let deadline = Instant::now() + STEP_LIMIT;
-        let mut g = self.m.lock().unwrap();
+        let deadline = Instant::now() + step_limit();
+        let mut g = lk(&self.m);
         while g.st.iter().any(|s| *s == St::Running) {
             let now = Instant::now();
             if now >= deadline {
                 return false;
             }
-            g = self.cv.wait_timeout(g, deadline - now).unwrap().0;
+            g = self.cv.wait_timeout(g, deadline - now).unwrap_or_else(std::sync::PoisonError::into_inner).0;
         }
         true
     }
     /// grant one turn; Ok(None) = the thread had already finished (grant skipped);
     /// Ok(Some(pos)) = it was parked at pos and has now run up to its next park / its end
     fn grant(&self, t: usize) -> Result<Option<(usize, usize)>, ()> {
-        let deadline = Instant::now() + STEP_LIMIT;
-        let mut g = self.m.lock().unwrap();
+        let deadline = Instant::now() + step_limit();
+        let mut g = lk(&self.m);
         if t >= g.st.len() || g.st[t] == St::Done {
             return Ok(None);
         }
@@ -1083,12 +1107,12 @@ impl Sched {
             if now >= deadline {
                 return Err(());
             }
-            g = self.cv.wait_timeout(g, deadline - now).unwrap().0;
+            g = self.cv.wait_timeout(g, deadline - now).unwrap_or_else(std::sync::PoisonError::into_inner).0;
         }
         Ok(Some(pos))
     }
     fn done(&self, t: usize) -> bool {
-        self.m.lock().unwrap().st[t] == St::Done
+        lk(&self.m).st[t] == St::Done
     }
 }
 
@@ -1101,6 +1125,9 @@ enum H {
     JL(PCollection<(i64, (Val, Option<Val>))>),
     JR(PCollection<(i64, (Option<Val>, Val))>),
     JF(PCollection<(i64, (Option<Val>, Option<Val>))>),
+    /// the call that should have produced this handle panicked / could not be issued: whoever
+    /// waits for the handle (free-running kind) is released at once
+    Dead,
 }
 
 struct Shared {
@@ -1120,15 +1147,27 @@ struct Shared {
 }
 impl Shared {
     fn publish(&self, r: Ref, h: H) {
-        self.table.lock().unwrap().insert(r, h);
+        lk(&self.table).insert(r, h);
+        self.table_cv.notify_all();
+    }
+    /// mark the handles (t, from..to) as never coming (only slots that are still empty)
+    fn publish_dead(&self, t: usize, from: usize, to: usize) {
+        let mut g = lk(&self.table);
+        for k in from..to {
+            g.entry((t, k)).or_insert(H::Dead);
+        }
+        drop(g);
         self.table_cv.notify_all();
     }
     fn get(&self, r: Ref) -> Option<H> {
-        let deadline = Instant::now() + STEP_LIMIT;
-        let mut g = self.table.lock().unwrap();
+        let deadline = Instant::now() + step_limit();
+        let mut g = lk(&self.table);
         loop {
             if let Some(h) = g.get(&r) {
-                return Some(h.clone());
+                return match h {
+                    H::Dead => None,
+                    h => Some(h.clone()),
+                };
             }
             if !self.wait_for_handles {
                 return None;
@@ -1137,7 +1176,11 @@ impl Shared {
             if now >= deadline {
                 return None;
             }
-            g = self.table_cv.wait_timeout(g, deadline - now).unwrap().0;
+            g = self
+                .table_cv
+                .wait_timeout(g, deadline - now)
+                .unwrap_or_else(std::sync::PoisonError::into_inner)
+                .0;
         }
     }
     fn general(&self, r: Ref) -> Option<PCollection<Row>> {
@@ -1151,7 +1194,7 @@ impl Shared {
     }
     /// THE adapter object number `a` of a format: created on first use, shared afterwards
     fn adapter(&self, fmt: u8, a: usize) -> Arc<dyn VecOps> {
-        let mut g = self.adapters.lock().unwrap();
+        let mut g = lk(&self.adapters);
         Arc::clone(g.entry((fmt, a)).or_insert_with(|| match fmt {
             0 => JsonlVecOps::<Row>::new() as Arc<dyn VecOps>,
             1 => CsvVecOps::<Row>::new() as Arc<dyn VecOps>,
@@ -1371,14 +1414,21 @@ fn exec_call(sh: &Shared, t: usize, next: &mut usize, call: &Call) -> Value {
                 H::JF(p) => {
                     collect_one(pl, p, m, dg, |(k, (v, w))| (*k, pair(opt(v.clone()), opt(w.clone()))))
                 }
+                H::Dead => return json!(["unavailable"]),
             };
             json!(["c", out, locks()])
         }
     }
 }
 
+/// The calls of one thread.  EVERY real-API call runs under catch_unwind: a panic of the
+/// implementation (in a builder as well as in a collect; also every call after a pipeline Mutex
+/// got poisoned) is the observed outcome ["panic"] of that call, the thread goes on with its next
+/// call, and the handles the call should have produced are marked dead so that nobody waits for
+/// them.
 fn thread_body(sh: &Shared, sc: Option<&Sched>, t: usize, program: &[Call]) -> Vec<Value> {
     TID.with(|c| c.set(if sc.is_some() { Some(t) } else { None }));
+    EPOCH.with(|c| c.set(sc.map_or(0, |s| s.epoch)));
     let mut results = Vec::new();
     let mut next = 0usize;
     for (ci, call) in program.iter().enumerate() {
@@ -1397,11 +1447,46 @@ fn thread_body(sh: &Shared, sc: Option<&Sched>, t: usize, program: &[Call]) -> V
                 results.push(json!(["panic"]));
             }
         }
-    }
-    if let Some(sc) = sc {
-        sc.finish(t);
+        sh.publish_dead(t, before, next);
     }
     results
+}
+
+/// Spawn the threads of a case.  Results come back through a channel, so a thread that is stuck
+/// inside the implementation can be abandoned (detached) instead of blocking the harness.
+fn spawn_threads(
+    programs: &[Vec<Call>],
+    sh: &Arc<Shared>,
+    sc: Option<&Arc<Sched>>,
+    barrier: Option<&Arc<std::sync::Barrier>>,
+) -> std::sync::mpsc::Receiver<(usize, Value)> {
+    let (tx, rx) = std::sync::mpsc::channel();
+    for (t, prog) in programs.iter().enumerate() {
+        let (prog, sh, sc, tx) = (prog.clone(), Arc::clone(sh), sc.cloned(), tx.clone());
+        let barrier = barrier.cloned();
+        std::thread::spawn(move || {
+            if let Some(b) = barrier {
+                b.wait();
+            }
+            let r = catch_unwind(AssertUnwindSafe(|| thread_body(&sh, sc.as_deref(), t, &prog)));
+            if let Some(sc) = &sc {
+                sc.finish(t);
+            }
+            let _ = tx.send((t, r.map_or_else(|_| json!(["thread-panic"]), Value::Array)));
+        });
+    }
+    rx
+}
+/// the results of all n threads, or None when some thread does not finish within `limit`
+fn gather(rx: &std::sync::mpsc::Receiver<(usize, Value)>, n: usize, limit: Duration) -> Option<Vec<Value>> {
+    let deadline = Instant::now() + limit;
+    let mut results = vec![Value::Null; n];
+    for _ in 0..n {
+        let left = deadline.saturating_duration_since(Instant::now());
+        let (t, v) = rx.recv_timeout(left).ok()?;
+        results[t] = v;
+    }
+    Some(results)
 }
 
 /// scratch directory of one case (removed when dropped)
@@ -1463,11 +1548,7 @@ fn run_hist(programs: &[Vec<Call>], schedule: &[usize], env: &Env) -> Value {
             hook_sc.at_yield();
         }
     })));
-    let mut joins = Vec::new();
-    for (t, prog) in programs.iter().enumerate() {
-        let (prog, sh, sc) = (prog.clone(), Arc::clone(&sh), Arc::clone(&sc));
-        joins.push(std::thread::spawn(move || thread_body(&sh, Some(&sc), t, &prog)));
-    }
+    let rx = spawn_threads(programs, &sh, Some(&sc), None);
     let mut turns = Vec::new();
     let mut okay = sc.quiesce();
     let go = |t: usize, turns: &mut Vec<Value>| -> bool {
@@ -1499,17 +1580,24 @@ fn run_hist(programs: &[Vec<Call>], schedule: &[usize], env: &Env) -> Value {
         }
     }
     if !okay {
+        // a grant did not come back: release every parked thread, give the threads a moment to
+        // run to their end, abandon whatever is still stuck, report the case as a hang
         sc.give_up();
-    }
-    let mut results = Vec::new();
-    for j in joins {
-        results.push(j.join().map_or_else(|_| json!(["thread-panic"]), Value::Array));
-    }
-    set_yield_hook(None);
-    if !okay {
+        HANGS.fetch_add(1, Ordering::SeqCst);
+        let _ = gather(&rx, n, Duration::from_secs(2));
+        set_yield_hook(None);
         return json!(["hang"]);
     }
-    json!(["ok", turns, results])
+    // every thread is Done: its results are already on their way
+    let results = gather(&rx, n, step_limit());
+    set_yield_hook(None);
+    match results {
+        Some(r) => json!(["ok", turns, r]),
+        None => {
+            HANGS.fetch_add(1, Ordering::SeqCst);
+            json!(["hang"])
+        }
+    }
 }
 
 fn run_stress(programs: &[Vec<Call>], env: &Env) -> Value {
@@ -1517,20 +1605,16 @@ fn run_stress(programs: &[Vec<Call>], env: &Env) -> Value {
     // the generator only emits programs whose references point backwards in a global order.
     set_yield_hook(None);
     let Some((sh, _scratch)) = new_shared(true, env) else { return json!(["invalid"]) };
-    let mut joins = Vec::new();
     let barrier = Arc::new(std::sync::Barrier::new(programs.len()));
-    for (t, prog) in programs.iter().enumerate() {
-        let (prog, sh, b) = (prog.clone(), Arc::clone(&sh), Arc::clone(&barrier));
-        joins.push(std::thread::spawn(move || {
-            b.wait();
-            thread_body(&sh, None, t, &prog)
-        }));
+    let rx = spawn_threads(programs, &sh, None, Some(&barrier));
+    // free-running: the whole program gets twice the per-grant limit
+    match gather(&rx, programs.len(), 2 * step_limit()) {
+        Some(results) => json!(["ok", results, sh.counter.load(Ordering::SeqCst)]),
+        None => {
+            HANGS.fetch_add(1, Ordering::SeqCst);
+            json!(["hang"])
+        }
     }
-    let mut results = Vec::new();
-    for j in joins {
-        results.push(j.join().map_or_else(|_| json!(["thread-panic"]), Value::Array));
-    }
-    json!(["ok", results, sh.counter.load(Ordering::SeqCst)])
 }
 
 /// [n, programs, (schedule,) env?]: env is the optional last component
@@ -2282,6 +2366,104 @@ fn scenario_sizes(rng: &mut SplitMix64, em: &mut Emitter, n: usize, digest: bool
     emit_hist_env(em, &[prog], &[], &Env::plain(1), &["sizes"]);
 }
 
+/// a seeded random valid schedule that runs the programs to their end (None: they deadlock)
+fn random_schedule(rng: &mut SplitMix64, programs: &[Vec<Call>], pipes: &[usize]) -> Option<Vec<usize>> {
+    let n = programs.len();
+    let mut sim = Sim::new(programs, pipes);
+    let mut schedule = Vec::new();
+    let mut stuck = 0usize;
+    while (0..n).any(|t| !sim.done(t)) {
+        let t = rng.below(n as u64) as usize;
+        if sim.done(t) {
+            continue;
+        }
+        let save = (sim.pos.clone(), sim.produced.clone());
+        if sim.turn(t).is_ok() {
+            schedule.push(t);
+            stuck = 0;
+        } else {
+            sim.pos = save.0;
+            sim.produced = save.1;
+            stuck += 1;
+            if stuck > 200 {
+                return None;
+            }
+        }
+    }
+    Some(schedule)
+}
+
+/// "diamond": joins whose two inputs share an ancestor - two branches of ONE source, the same
+/// handle on both sides, a collection with its own ancestor - for every join kind, over a plain /
+/// unknown-length custom / streamed source; the joins (raw and wrapped) are collected in both
+/// modes and the source and the branches are collected again afterwards.  One thread, or the two
+/// branches built and joined by two threads under a seeded schedule.
+fn scenario_diamond(rng: &mut SplitMix64, em: &mut Emitter, kind: u8, srck: u8, two_threads: bool) {
+    let rows = vec![(0, 1), (1, 2), (0, 3), (2, 4), (1, 5)];
+    let (src, env_files) = match srck {
+        0 => (Call::Src(RowsSpec::List(rows.clone())), Vec::new()),
+        1 => (Call::Custom(0, 1, vec![rows[..2].to_vec(), rows[2..].to_vec()]), Vec::new()),
+        _ => (
+            Call::File(1, 0, 2, 0),
+            vec![FileSpec { fmt: 0, p: 0, lines: LinesSpec::List(rows.iter().copied().map(Some).collect()) }],
+        ),
+    };
+    let par = *rng.pick(&[1usize, 2, 3, 7, 1000]);
+    let m = rng.range(2, 3);
+    let programs: Vec<Vec<Call>> = if two_threads {
+        vec![
+            vec![
+                src,
+                Call::Derive(Op::Map, 1, 0, (0, 0)),
+                Call::Join(kind, (0, 1), (1, 0)), // diamond, the other branch built by thread 1
+                Call::Collect(0, (0, 2), false),
+                Call::Collect(par, (0, 3), false),
+                Call::Collect(0, (0, 0), false),
+            ],
+            vec![
+                Call::Derive(Op::Filter, m, rng.range(0, m - 1), (0, 0)),
+                Call::Join(kind, (0, 0), (0, 0)), // self join of the source
+                Call::Collect(par, (1, 1), false),
+                Call::Join((kind + 1) % 4, (1, 0), (0, 0)), // a branch with its own ancestor
+                Call::Collect(0, (1, 4), false),
+                Call::Collect(par, (1, 0), false),
+            ],
+        ]
+    } else {
+        let mut p = vec![
+            src,
+            Call::Derive(Op::Map, 1, 0, (0, 0)),
+            Call::Derive(Op::Filter, m, rng.range(0, m - 1), (0, 0)),
+            Call::Join(kind, (0, 1), (0, 2)),  // diamond          -> (0,3) raw, (0,4)
+            Call::Join(kind, (0, 0), (0, 0)),  // self join        -> (0,5), (0,6)
+            Call::Join(kind, (0, 0), (0, 1)),  // ancestor x child -> (0,7), (0,8)
+            Call::Join(kind, (0, 2), (0, 0)),  // child x ancestor -> (0,9), (0,10)
+            Call::Join(kind, (0, 2), (0, 2)),  // self join of a branch -> (0,11), (0,12)
+        ];
+        for k in 3..=12usize {
+            p.push(Call::Collect(if k % 2 == 1 { 0 } else { par }, (0, k), false));
+        }
+        for k in [4usize, 6, 12] {
+            p.push(Call::Collect(if k == 6 { par } else { 0 }, (0, k), false));
+        }
+        for k in 0..3usize {
+            p.push(Call::Collect(0, (0, k), false));
+            p.push(Call::Collect(par, (0, k), false));
+        }
+        vec![p]
+    };
+    let env = Env { pipes: vec![0; programs.len()], files: env_files };
+    let schedule = if two_threads {
+        match random_schedule(rng, &programs, &env.pipes) {
+            Some(s) => s,
+            None => return,
+        }
+    } else {
+        Vec::new()
+    };
+    emit_hist_env(em, &programs, &schedule, &env, &["diamond"]);
+}
+
 fn gen_stress(rng: &mut SplitMix64, n: usize, ncalls: usize, env: Env, rich: bool) -> (Vec<Vec<Call>>, Env) {
     // a sequential global order of whole calls, dealt to random threads
     let mut g = Gen::new(n, env, rich);
@@ -2338,6 +2520,13 @@ fn generate(seed: u64, tier: Tier, em: &mut Emitter) {
         }
         for &n in &[4096usize, 65536] {
             scenario_sizes(&mut srng, em, n, true);
+        }
+        for kind in 0..4u8 {
+            for srck in 0..3u8 {
+                scenario_diamond(&mut srng, em, kind, srck, false);
+                scenario_diamond(&mut srng, em, kind, srck, true);
+                scenario_diamond(&mut srng, em, kind, srck, true);
+            }
         }
     }
     // 3. seeded random histories, 1..4 threads; every third one over custom / streamed sources,
